@@ -80,3 +80,7 @@ CLAIMED["C17"] = (
  "bit-provenance abstract interpretation (known bits + provenance, no solver) of the format encoders and decoders; table rules: RISC-V base-format layout agreement, decoder-inverse composition, encode-key injectivity / decode-key sufficiency over the opcode table; LoongArch operand-bits-vs-opcode-mask and decoder-inverse per format",
  "Decides, for every format and every table row, that operand bits are placed where the ISA layout (RISC-V) or the row's own opcode mask (LoongArch) allows, that the disassembler reads each operand bit back from where the assembler wrote it with the right extension, and that no two real instructions share every table field the encoder reads (known exceptions recorded). Does not decide opcode values against an independent ISA table, immediate range checking, pseudo-instructions, ARM64 (unimplemented) or x86-64.",
  AST_BASE + "; RISC-V base format layouts from the unprivileged ISA specification")
+CLAIMED["C20"] = (
+ "table agreement lint over the emulators' per-mnemonic switch arms on the type-checked AST (operand views through conversion chains, ordering truth tables evaluated over {<,=,>}, decoder-filled raw fields vs. fields read, path-sensitive read-after-write of rd, guard/divisor agreement)",
+ "Decides, for every implemented arm of the riscv64, riscv32 and loong64 emulators, that it reads only decoder-filled raw fields, has its format's operand signature, applies the mnemonic's operator through the signed/unsigned view of the right width, masks register shift amounts, sign-extends 32-bit results, transfers the mnemonic's width at rs1+imm with the mnemonic's extension, shifts upper immediates by 12, computes pc-relative targets and links from the executing pc, never reads a source after writing rd, and guards each division by a zero test of its own divisor. Does not decide instruction decode (C17), floating point, CSR/privileged behaviour, devices, or unimplemented instructions.",
+ AST_BASE)
